@@ -90,6 +90,28 @@ ConfWallClock(who) ==
                       LET h == hist[i] IN
                       (h.op = LibOpOf(res) /\ h.src = me.src /\ h.cfg = cfg) => Payload(res) = h.out, who)
 
+(***************************************************************************)
+(* Growth beyond the listed properties: the process model of the command   *)
+(* for option combinations and failures no property speaks about.          *)
+(* --list wins over --list-all; --list-json without a list mode is         *)
+(* ignored; a --filename that cannot be opened or an --output that cannot  *)
+(* be created ends the process with a panic (status 101) and an empty      *)
+(* standard output, the input file stays as it is.  Reported as DRIFT.     *)
+(***************************************************************************)
+ConfCliOdd(who) ==
+  (pc = "cli_done" /\ res.odd # "" /\ res.cur_given /\ CfgOfOpts(res, cfg)) =>
+     LET me == hist[Len(hist)]
+         lib == IF res.mode = "clean" THEN "clean" ELSE IF res.json THEN "list_json" ELSE "list"
+         AsLibrary == /\ res.exit = 0
+                      /\ \A i \in 1..(Len(hist) - 1) :
+                            LET h == hist[i] IN (h.op = lib /\ h.src = me.src /\ h.cfg = cfg) => Payload(res) = h.out
+     IN Drift("CliOdd",
+              CASE res.odd \in {"both_lists", "json_clean"} -> AsLibrary
+                [] res.odd = "missing_input" -> res.exit = 101 /\ res.stdout = <<>> /\ ~res.has_outfile
+                [] res.odd = "bad_outdir" -> res.exit = 101 /\ res.stdout = <<>> /\ ~res.has_outfile
+                                             /\ (res.input = "file" => res.has_infile /\ res.infile_after = me.src)
+                [] OTHER -> TRUE, who)
+
 ConfAll(who) == ConfTokens(who) /\ ConfTree(who) /\ ConfMarkers(who) /\ ConfOut(who) /\ ConfCrash(who) /\ ConfItems(who) /\ ConfPretty(who)
-                /\ ConfWallClock(who)
+                /\ ConfWallClock(who) /\ ConfCliOdd(who)
 =============================================================================
